@@ -408,6 +408,8 @@ fn main() {
             ("archivo", fp_cli.to_string(), fp)
         }
         (None, Some(l_cli), _) => {
+            // Actualiza metadato CTE_LOCALIZACION al valor seleccionado
+            components.set_meta("CTE_LOCALIZACION", l_cli);
             let fp = cte::wfactors_from_loc(l_cli, default_locwf, user_wf, default_userwf);
             ("usuario", l_cli.to_string(), fp)
         }
